@@ -150,7 +150,8 @@ fn c11(seed: u64, thorough: bool) -> Scenario {
             } else if roll < 7 {
                 // one pure insertion: only the blocks that contain the new line are modified
                 if let Some(l) = g.pick_insert_line(i) {
-                    g.world.files[i].diff = FileDiff::Insert { line: l };
+                    g.world.files[i].diff = FileDiff::Insert { line: l, renamed_from: None };
+                    g.maybe_rename(i);
                 }
             }
         }
@@ -705,7 +706,8 @@ fn c14(seed: u64, thorough: bool) -> Scenario {
                 g.world.files[i].diff = FileDiff::Added;
             } else if roll < 7 {
                 if let Some(l) = g.pick_insert_line(i) {
-                    g.world.files[i].diff = FileDiff::Insert { line: l };
+                    g.world.files[i].diff = FileDiff::Insert { line: l, renamed_from: None };
+                    g.maybe_rename(i);
                 }
             }
         }
@@ -727,8 +729,15 @@ fn c14(seed: u64, thorough: bool) -> Scenario {
     let mut subset: Vec<String> = match g.rng.below(8) {
         0 => model::VALIDATORS.iter().map(|v| v.to_string()).collect(),
         1 => {
+            // all but one, often with one of the six repeated (seven flags, six distinct names)
             let skip = g.rng.below(model::VALIDATORS.len());
-            model::VALIDATORS.iter().enumerate().filter(|(i, _)| *i != skip).map(|(_, v)| v.to_string()).collect()
+            let mut v: Vec<String> =
+                model::VALIDATORS.iter().enumerate().filter(|(i, _)| *i != skip).map(|(_, v)| v.to_string()).collect();
+            if g.rng.chance(2, 3) {
+                let d = g.rng.pick(&v).clone();
+                v.push(d);
+            }
+            v
         }
         _ => {
             let k = g.rng.range(1, 5);
@@ -968,7 +977,8 @@ fn c15(seed: u64, thorough: bool) -> Scenario {
                 g.world.files[i].diff = FileDiff::Added;
             } else if roll < 6 {
                 if let Some(l) = g.pick_insert_line(i) {
-                    g.world.files[i].diff = FileDiff::Insert { line: l };
+                    g.world.files[i].diff = FileDiff::Insert { line: l, renamed_from: None };
+                    g.maybe_rename(i);
                 }
             } else if roll < 7 && !g.world.files[i].unwalkable {
                 g.world.files[i].diff = FileDiff::Deleted;
